@@ -39,14 +39,15 @@ ROW_CFG = """SPECIFICATION %(spec)s
 CONSTANTS
   Tabs = %(tabs)s
   MaxSteps = %(maxsteps)d
+  MaxLines = %(maxlines)d
   Devs = %(devs)s
   Gen = %(gen)s
 %(tail)s
 """
 
 
-def row_cfg(spec="Spec", tabs=ALL_TABS, maxsteps=2, devs=(), gen=False, tail=""):
-    return ROW_CFG % dict(spec=spec, tabs=tla_set(tabs), maxsteps=maxsteps, devs=tla_set(devs),
+def row_cfg(spec="Spec", tabs=ALL_TABS, maxsteps=2, maxlines=2, devs=(), gen=False, tail=""):
+    return ROW_CFG % dict(spec=spec, tabs=tla_set(tabs), maxsteps=maxsteps, maxlines=maxlines, devs=tla_set(devs),
                           gen="TRUE" if gen else "FALSE", tail=tail)
 
 
@@ -55,12 +56,13 @@ def run_rows(ctx, replay_obj, binary, findings):
     thorough = ctx.tier == "thorough"
     by_dev = {f["match"]["dev"]: f for f in findings if f["match"]["dev"] in ROW_DEVS}
     maxsteps = 3 if thorough else 2
+    maxlines = 3 if thorough else 2
     if replay_obj:
         rows = [replay_obj["row"]]
         rows[0]["id"] = 1
     else:
         r = ctx.tlc_expect_ok("TableLookup", None, name="rows", workers=4, timeout=1200,
-                              cfg_text=row_cfg(maxsteps=maxsteps, gen=True,
+                              cfg_text=row_cfg(maxsteps=maxsteps, maxlines=maxlines, gen=True,
                                                tail="INVARIANTS RuleSatisfiesProp\nCONSTRAINT Emit\nCHECK_DEADLOCK FALSE"))
         rows = vtable.rows_from(r)
         if len(rows) != r["distinct"]:
@@ -104,7 +106,7 @@ def run_rows(ctx, replay_obj, binary, findings):
         selftest = {900001: "value dropped", 900002: "found flag flipped"}
         events = events + forged
     open_row_devs = sorted(by_dev)
-    tcfg = ROW_CFG % dict(spec="TSpec", tabs="{}", maxsteps=maxsteps, devs="{}", gen="FALSE",
+    tcfg = ROW_CFG % dict(spec="TSpec", tabs="{}", maxsteps=maxsteps, maxlines=maxlines, devs="{}", gen="FALSE",
                           tail="  OpenDevs = %s\nCHECK_DEADLOCK FALSE\nPOSTCONDITION Post" % tla_set(open_row_devs))
     verdicts, accepted = vtable.validate_rows(ctx, "TableLookupTrace", tcfg, events, name="rows-trace", batch=20000, par=4)
     for t, what in selftest.items():
@@ -249,6 +251,9 @@ def model_check(ctx, thorough):
         r4 = ctx.tlc_expect_ok("FileTable", None, name="mc4", workers=12, timeout=2400,
                                cfg_text=cfg(K=4, maxtime=8, maxenv=2, old=(0, 22), envk=ALL_SW))
         ctx.cov["states_K4"] = r4["distinct"]
+        r3 = ctx.tlc_expect_ok("FileTable", None, name="mc3", workers=12, timeout=2400,
+                               cfg_text=cfg(maxtime=4, maxenv=3, envk=ALL_SW))
+        ctx.cov["states_three_edits"] = r3["distinct"]
     else:
         r = ctx.tlc_expect_ok("FileTable", None, name="mc", workers=6, timeout=600,
                               cfg_text=cfg(maxtime=4, maxenv=2, envk=ALL_SW))
